@@ -89,6 +89,48 @@ def _init_worker():
     from dsl_compiler.cli import compile_dsl_source
 
     _compile = compile_dsl_source
+    # harness-side observation (in this process only; /repo is not modified): remember the
+    # ConnectionPlanner of the last layout attempt so that the compiler's own logical edge
+    # list can be read after the public entry point returns.
+    try:
+        from dsl_compiler.src.layout import connection_planner as cp
+
+        orig = cp.ConnectionPlanner.plan_connections
+
+        def wrapped(self, *a, **k):
+            r = orig(self, *a, **k)
+            _HARVEST["cp"] = self
+            return r
+
+        cp.ConnectionPlanner.plan_connections = wrapped
+    except Exception:  # noqa: BLE001
+        pass
+
+
+_HARVEST = {}
+
+
+def _harvest():
+    c = _HARVEST.pop("cp", None)
+    if c is None:
+        return None
+    try:
+        edges = []
+        for e in c._circuit_edges:
+            if not e.source_entity_id:
+                continue
+            key = (e.source_entity_id, e.sink_entity_id, e.resolved_signal_name)
+            col = c._edge_color_map.get(key)
+            if col is None:
+                col = "red"  # memory feedback edges are always red (ConnectionPlanner.plan_connections)
+            edges.append([e.source_entity_id, e.sink_entity_id, e.resolved_signal_name, col, e.originating_merge_id])
+        places = {}
+        for k, pl in c.layout_plan.entity_placements.items():
+            if pl.position is not None:
+                places[k] = [pl.entity_type, float(pl.position[0]), float(pl.position[1]), pl.role]
+        return {"edges": edges, "places": places}
+    except Exception as e:  # noqa: BLE001
+        return {"error": str(e)}
 
 
 def _compile_one(job):
@@ -104,12 +146,15 @@ def _compile_one(job):
             from dsl_compiler.src.common.constants import CompilerConfig
 
             kw["config"] = CompilerConfig(layout_solver_time_limit=tl)
+        o.pop("_harvest", None)
         kw.update(o)
         buf = io.StringIO()
         with contextlib.redirect_stdout(buf), contextlib.redirect_stderr(buf):
             ok, res, diags = _compile(text, **kw)
         if not ok:
             return ("rejected", str(res))
+        if opts.get("_harvest", True):
+            return ("ok", res, _harvest())
         return ("ok", res)
     except BaseException as e:  # noqa: BLE001
         return ("error", f"{type(e).__name__}: {e}"[:2000])
@@ -141,7 +186,7 @@ Open Scope Z_scope.
 """
 
 
-def run_coq_files(files, timeout=900):
+def run_coq_files(files, timeout=300):
     """compile the given .v files (paths relative to COQ) in parallel; returns dict file -> (rc, output)"""
     procs = {}
     res = {}
